@@ -873,6 +873,10 @@ impl<B: ScopedBitRead> UperReader<B> {
         f: F,
     ) -> Result<T, Error> {
         let write_position = self.bits.pos() + (length_bytes * BYTE_LEN);
+        if write_position > self.bits.len() {
+            // the input ends before the announced end of the open type
+            return Err(ErrorKind::EndOfStream.into());
+        }
         let write_original = core::mem::replace(&mut self.bits.len(), write_position);
         let result = f(self);
         // extend to original position
